@@ -356,7 +356,7 @@ func splitTop(s string, sep rune) []string {
 	return out
 }
 
-var reFuncHeader = regexp.MustCompile(`^(\(\s*(\w+)?\s*\*?([\w./"\-]+)\s*\)\s*)?(?:"([^"]+)"\.)?(\w+)\s*`)
+var reFuncHeader = regexp.MustCompile(`^(\(\s*(\w+)?\s*\*?([\w./"\-]+)\s*\)\s*)?(?:"([^"]+)"\.)?([\w$]+)\s*`)
 
 // parseFuncHeader parses `(recv *T) name(p1, p2 T) (r1, r2)`.
 func parseFuncHeader(s string) (*FuncContract, error) {
